@@ -126,8 +126,7 @@ func (m *Module) handleSetEntityAction(ctx context.Context, respond hwebsocket.R
 		return nil
 	}
 
-	latestEntityAction, ok := m.state.EntityAction(entityAction.EntityId, entityAction.Name)
-	if ok && entityAction.Timestamp.AsTime().Before(latestEntityAction.Timestamp.AsTime()) {
+	if !m.state.SetEntityActionIfNotOlder(entityAction) {
 		respond.Send(&hagallpb.ErrorResponse{
 			Type:      hagallpb.MsgType_MSG_TYPE_ERROR_RESPONSE,
 			Timestamp: timestamppb.Now(),
@@ -136,8 +135,6 @@ func (m *Module) handleSetEntityAction(ctx context.Context, respond hwebsocket.R
 		})
 		return nil
 	}
-
-	m.state.SetEntityAction(entityAction)
 
 	// The entity might have been removed since it was looked up, by its owner
 	// deleting it or leaving: its actions are dropped once it is gone, which
